@@ -231,6 +231,13 @@ func (u *Unit) writesOfCall(c *ssa.CallCommon, w *writeSet) {
 		}
 	}
 	full := callee.String()
+	if full == "sort.Slice" {
+		if mi, ok := c.Args[0].(*ssa.MakeInterface); ok {
+			if sl, ok := mi.X.Type().Underlying().(*types.Slice); ok {
+				w.addLeaves(sl.Elem(), "elem")
+			}
+		}
+	}
 	if _, ok := libModels[full]; ok {
 		for _, s := range libWrites[full] {
 			parts := strings.SplitN(s, "|", 2)
